@@ -307,8 +307,9 @@ func (p *Parser) parsePosting() *ast.Posting {
 	}
 
 	posting.Account = ast.Account{
-		Name:  p.current.Value,
-		Range: ast.Range{Start: toASTPosition(p.current.Pos), End: toASTPosition(p.current.End)},
+		Name: p.current.Value,
+		// the token may extend over a single blank after the name
+		Range: textRange(p.current),
 	}
 	p.advance()
 
